@@ -169,9 +169,9 @@ Ltac side :=
   cbn [b2n]; lia.
 
 Lemma inv_step : forall c st l st',
-  1 <= nthreads c -> guard c = true -> Inv c st -> step c st l = Some st' -> Inv c st'.
+  1 <= nthreads c -> fixed_code c -> Inv c st -> step c st l = Some st' -> Inv c st'.
 Proof.
-  intros c st l st' T1 GD I S. apply step_cases in S.
+  intros c st l st' T1 GD I S. apply (step_cases _ _ _ _ (proj2 GD)) in S.
   destruct S as [G R|G R|k G F X|G F X|i th th' b' G N TC].
   - (* start *)
     destruct I as [L _]. split; cbn [ths gp round bar bcount bgen].
@@ -209,7 +209,7 @@ Proof.
       fold n g. tok_unfold M BL. fold n in W.
       pose proof (wb_wait_le2 _ _ W). intuition lia.
     + (* panic *)
-      rewrite GD. eapply inv_upd_same; eauto; try solve [side].
+      rewrite (proj1 GD). eapply inv_upd_same; eauto; try solve [side].
       fold n g. tok_unfold M BL. fold n in U. intuition lia.
     + (* non-wait action *)
       eapply inv_upd_same; eauto; try solve [side].
@@ -226,7 +226,7 @@ Proof.
 Qed.
 
 Lemma inv_reachable : forall c st,
-  1 <= nthreads c -> guard c = true -> reachable c st -> Inv c st.
+  1 <= nthreads c -> fixed_code c -> reachable c st -> Inv c st.
 Proof.
   intros c st T1 GD R. eapply (reachable_ind' c (Inv c)); eauto.
   - apply inv_init.
@@ -307,7 +307,7 @@ Proof.
 Qed.
 
 Theorem phase_order_reachable : forall c st,
-  2 <= nthreads c -> guard c = true -> reachable c st -> phase_order c st /\ phase_sb c st = true.
+  2 <= nthreads c -> fixed_code c -> reachable c st -> phase_order c st /\ phase_sb c st = true.
 Proof.
   intros c st T2 GD R. assert (phase_order c st) as P.
   { apply inv_phase_order. apply inv_reachable; auto. lia. }
